@@ -586,3 +586,28 @@ func decideGE(h func(int64) (int64, bool), P int64) (bool, int64, bool) {
 	}
 	return false, 0, true
 }
+
+// isDstValue: v is the output accumulator of top (its first parameter, or a
+// load of the variable holding it, possibly captured by a loop body).
+func isDstValue(v ssa.Value, top *ssa.Function) bool {
+	if 0 == len(top.Params) {
+		return false
+	}
+	if v == ssa.Value(top.Params[0]) {
+		return true
+	}
+	u, ok := v.(*ssa.UnOp)
+	if !ok || token.MUL != u.Op {
+		return false
+	}
+	a, ok := resolveFree(u.X).(*ssa.Alloc)
+	if !ok || a.Parent() != top {
+		return false
+	}
+	for _, st := range storesTo(a) {
+		if st.Val == ssa.Value(top.Params[0]) {
+			return true
+		}
+	}
+	return false
+}
